@@ -92,6 +92,27 @@ def cases(draw):
             g = dict(f)
             g[keys[i - 1]] = "*"
             searches.append({"s": m.render(t, g), "labels": ["star-above-literal-free-value"]})
+        elif _ == 3 and m.is_leaf_type(t) and len(m.keys(t)) >= 4:
+            # a ',' list above an open leaf level, where BOTH alternatives hold files of several leaf types that share folders
+            # (scene / movie / cache files): one call then walks several file patterns for several types
+            keys = m.keys(t)
+            i = draw(st.integers(2, len(keys) - 2))
+            other = draw(gens.entity_value(m, t, keys[i]))
+            if other == f[keys[i]] or any(c in other for c in ",*>?"):
+                searches.append(draw(gens.gt_search(m, t, f)))
+            else:
+                sibs = [x for x in m.types if m.keys(x) == keys and m.is_leaf_type(x) and pm.has_path(x)]
+                for alt in (f, dict(f, **{keys[i]: other})):
+                    for x in sibs:
+                        lits = [l for l in m.specs[(x, keys[-1])].literals if l not in m.extension_alias and l not in ("*", ">")]
+                        if lits and m.accepts(x, [alt[k] for k in keys[:-1]] + [lits[0]]):
+                            e = (x, dict(alt, **{keys[-1]: lits[0]}))
+                            if e not in ents:
+                                ents.append(e)
+                g = dict(f)
+                g[keys[i]] = ",".join(draw(st.permutations([f[keys[i]], other])))
+                g[keys[-1]] = "*"
+                searches.append({"s": m.render(t, g), "labels": ["list-above-open-leaf-level"]})
         elif draw(st.integers(0, 9)) < 3:
             searches.append(draw(gens.gt_search(m, t, f)))
         else:
